@@ -354,6 +354,49 @@ ASSUME = [
 ]
 
 
+def pipeline_corridors(work, driver, tier, rng, kind):
+    """corridors as the LIBRARY builds them: Layout runs with the spline router, a monitor and the stage hook; the stage-5
+    snapshots carry, per routed edge, the rectangles and the two end points handed to geom.Shortest (sixths of a unit).  The
+    well-formed ones (C19's premise; many are not, see DESIGN.md section 14, D11) become cases of the geometry checks."""
+    import cases as K
+    n_lay = 700 if tier == "quick" else 6000
+    cs = []
+    while len(cs) < n_lay:
+        n, e = K.random_multigraph(rng, 3, 12, density=rng.choice([1.0, 1.3, 1.6, 2.0]), loop_rate=0.02)
+        c = K.case(n, e, p4=rng.choice(K.P4_SIZE_AWARE), p5="splines", ns=rng.choice([1, 2, 10, 30]), ls=rng.choice([1, 4, 10, 40]),
+                   p1=rng.choice(K.P1S), p2=rng.choice(K.P2S), mon=1, stages=1)
+        c = K.with_sizes(c, rng.choice(["fixed", "fixed", "all", "fixed+all"]), rng.choice(["odd", "unit"]))
+        if c["p4"] == "nspos" and n + len(e) > 30:
+            c["p4"] = "sink"
+        c["case"] = len(cs) + 1
+        cs.append(c)
+    d = work.sub("pipecor-" + kind)
+    cpath, tpath = os.path.join(d, "cases.ndjson"), os.path.join(d, "trace.ndjson")
+    with open(cpath, "w") as fh:
+        for c in cs:
+            fh.write(json.dumps(c, separators=(",", ":")) + "\n")
+    core.run_cases(driver, "run", cpath, tpath, budget_ms=3000, mem_mb=600)
+    out, total = [], 0
+    with open(tpath) as fh:
+        for line in fh:
+            if not line.startswith('{"ev":"Stage"') or '"st":5' not in line:
+                continue
+            rec = json.loads(line)
+            if rec.get("corsok") != 1:
+                continue
+            for row in rec["cors"]:
+                total += 1
+                k = row[0]
+                rects = [row[1 + 4 * i: 5 + 4 * i] for i in range(k)]
+                s_, e_ = row[1 + 4 * k: 3 + 4 * k], row[3 + 4 * k: 5 + 4 * k]
+                gc = {"kind": kind, "rects": rects, "s": s_, "e": e_, "den": 6}
+                if k >= 2 and well_formed(gc) and max(abs(v) for r in rects for v in r) <= 20000:
+                    out.append(gc)
+    log("[%s] pipeline corridors: %d spline edges routed in %d layouts, %d corridors with >= 2 rectangles are well-formed and join the family"
+        % (kind, total, len(cs), len(out)))
+    return out
+
+
 def c19_check(prop, tier, seed, replay):
     t0 = time.time()
     work = core.Work(prop)
@@ -371,7 +414,7 @@ def c19_check(prop, tier, seed, replay):
                 cases = [dict(json.load(fh)["case"])]
         else:
             seen, cases = set(), []
-            for c in corridor_cases(tier, rng, "shortest"):
+            for c in list(corridor_cases(tier, rng, "shortest")) + pipeline_corridors(work, driver, tier, rng, "shortest"):
                 key = json.dumps(c, sort_keys=True)
                 if key not in seen:
                     seen.add(key)
@@ -380,7 +423,8 @@ def c19_check(prop, tier, seed, replay):
         rule = ("corridors: every well-formed corridor of 1-3 rectangles with x in 0..4 and heights {1,2} generated by TLC from Corridor.tla (thorough: also 4 "
                 "rectangles) x lattice start points of the first and end points of the last rectangle (all pairs for small corridors, a seeded sample of "
                 "%d otherwise), half-unit points, and seeded random corridors of 2-12 rectangles with corners up to 40; the returned polyline must run from "
-                "the end to the start point, stay inside (exact integer door-crossing test) and be taut (IsGeodesic); non-trivial = the geodesic bends") % (6 if tier == "quick" else 40)
+                "the end to the start point, stay inside (exact integer door-crossing test) and be taut (IsGeodesic); bulge / S-shaped corridors of 5-18 rectangles; and the "
+                "well-formed corridors that the library itself builds (spline routing of 700 / 6000 random layouts, recorded by the stage hook); non-trivial = the geodesic bends") % (6 if tier == "quick" else 40)
         return finish("C19", tier, seed, t0, cases, viols, stats, states, trans, known, rule, models)
     finally:
         work.cleanup()
@@ -403,7 +447,7 @@ def c20_check(prop, tier, seed, replay):
                 cases = [dict(json.load(fh)["case"])]
         else:
             seen, cases = set(), []
-            for c in corridor_cases(tier, rng, "fit"):
+            for c in list(corridor_cases(tier, rng, "fit")) + pipeline_corridors(work, driver, tier, rng, "fit"):
                 key = json.dumps(c, sort_keys=True)
                 if key not in seen:
                     seen.add(key)
